@@ -124,3 +124,21 @@ Theorem C02_yaml_guard_lets_documents_through :
   forall (data : bytes) (evs : list yev),
     no_end_before_start evs -> chunker data evs <> [] -> has_document evs = true.
 Proof. exact chunks_imply_document. Qed.
+
+(* TOML input (src/toml.rs `transcode`): the handle is turned into one owned byte
+   string, which is checked as UTF-8, parsed and written out.  Whatever those
+   steps compute ([parse]: any function of the text), they are applied to exactly
+   the input bytes [d] in both supply modes - a reader under any read schedule and
+   a slice, with the format named or after any detection: for TOML the result
+   cannot depend on how the bytes were supplied, with no premise about the toml
+   crate. *)
+From XtModel Require Import TomlInputProofs.
+
+Theorem C02_toml_same_text_both_modes :
+  forall (R : Type) (parse : bytes -> R) (io : ioerr -> R)
+         (sched : nat -> nat) (cutoff : nat) (toml_parses : bytes -> bool) (tm tj ty : trial) (d : bytes),
+    toml_transcode parse io (fst (fst (detect_reader sched cutoff toml_parses tm tj ty d None))) = parse d /\
+    toml_transcode parse io (fst (fst (detect sched cutoff toml_parses tm tj ty (start (HSlice d))))) = parse d /\
+    toml_transcode parse io (from_reader d None) = parse d /\
+    toml_transcode parse io (HSlice d) = parse d.
+Proof. exact @toml_same_text_both_modes. Qed.
